@@ -16,10 +16,6 @@ Proof.
     repeat match goal with |- context [match ?x with _ => _ end] => destruct x end; reflexivity.
 Qed.
 
-Definition names_ok (st : store) : Prop :=
-  Forall (fun p => forall g, p_name p = rsv_name g -> p_plain p = Some g) (others st).
-(** the consumer is the only non-reservation pod, reservation pods carry their conventional names *)
-Definition SH (st : store) : Prop := rsv_only st /\ names_ok st.
 
 Lemma SH_incl st st' : SH st -> incl (others st') (others st) -> SH st'.
 Proof.
@@ -146,6 +142,8 @@ Section Main.
   Variable sc : scen.
   Variable init : store.
   Variable br0 : option brst.      (* the request's status object while the attempt runs *)
+  Variable mk0 : option (nat * nat).   (* the ghost marks while this part of the attempt runs *)
+  Variable mke0 : option nat.
   Notation exec := (Binder.exec faults dp ord).
   Notation step := (Binder.step faults dp).
 
@@ -163,12 +161,14 @@ Section Main.
     | |- context [Binder.step ?f ?d ?c ?s] => destruct (Binder.step f d c s) as [sn rn] eqn:E
     end.
 
-  Definition marks_none (s : state) : Prop := s_mark s = None /\ s_mark_end s = None.
+  Definition marks_none (s : state) : Prop := s_mark s = mk0 /\ s_mark_end s = mke0.
 
   (** labels the server has and the attempt's starting point did not are known to the in-memory pod *)
   Definition J (st : store) (m : mem) : Prop :=
     (forall g, In g (p_multi (self st)) -> In g (p_multi (self init)) \/ In g (m_multi m))
-    /\ (forall g, p_plain (self st) = Some g -> p_plain (self init) = Some g \/ opt_is_some (m_plain m) = true).
+    /\ (forall g, p_plain (self st) = Some g -> p_plain (self init) = Some g \/ opt_is_some (m_plain m) = true)
+    /\ (sc_fraction sc = false ->
+        p_plain (self st) = p_plain (self init) /\ p_multi (self st) = p_multi (self init)).
 
   (** config maps that were not there before can only exist for a shared-GPU request with the annotation *)
   Definition K (st : store) : Prop :=
@@ -471,7 +471,7 @@ Section Main.
 
   (** updatePodGPUGroup *)
   Lemma label_consumer_spec g i s :
-    INV s -> M s ->
+    INV s -> M s -> sc_fraction sc = true ->
     let s' := fst (exec (label_consumer sc g i) s) in
     let r := snd (exec (label_consumer sc g i) s) in
     INV s' /\ s_nfail s <= s_nfail s'
@@ -483,7 +483,7 @@ Section Main.
           /\ (sc_multi sc = true -> In g (p_multi (self (s_store s')))))
     /\ (s_nfail s' = s_nfail s -> r = Some i).
   Proof.
-    intros HI (HM1 & HM2). unfold label_consumer. cbn [Binder.exec].
+    intros HI (HM1 & HM2) Hfr. unfold label_consumer. cbn [Binder.exec].
     set (m := s_mem s).
     set (m' := if sc_multi sc then mem_with_labels m (m_plain m) (add_set g (m_multi m))
                else mem_with_labels m (Some g) (m_multi m)).
@@ -491,7 +491,8 @@ Section Main.
     set (dmulti := if sc_multi sc then if mem_nat g (m_multi m) then None else Some g else None).
     match goal with |- context [Binder.step _ _ _ ?st] => set (sa := st) end.
     assert (HIa : INV sa).
-    { apply (INV_set_mem s m' HI). destruct HI as (_ & _ & (J1 & J2) & _). split.
+    { apply (INV_set_mem s m' HI). destruct HI as (_ & _ & (J1 & J2 & _) & _).
+      split; [| split; [| intros Hx; rewrite Hfr in Hx; discriminate]].
       - intros x Hx. right. unfold m'. fold m in HM2. destruct (sc_multi sc); simpl.
         + apply add_set_In. right. rewrite HM2. exact Hx.
         + rewrite HM2. exact Hx.
@@ -517,10 +518,10 @@ Section Main.
       unfold add_set. rewrite <- HM2, Em. reflexivity. }
     assert (HI1 : INV s1).
     { eapply INV_step; eauto; [exact I |]. intros Hr. destruct (Hreach Hr) as (Hst & _). rewrite Hst.
-      destruct HIa as (HGa & _ & (J1 & J2) & HKa & Hna & Hbra & Hnoa & _).
+      destruct HIa as (HGa & _ & (J1 & J2 & _) & HKa & Hna & Hbra & Hnoa & _).
       destruct HGa as ((Ha & Hn0 & Hrs & Hp & Ho) & _).
       split; [unfold base; simpl; auto 10 |]. split; [exact Hna |]. split.
-      - split.
+      - split; [| split; [| intros Hx; rewrite Hfr in Hx; discriminate]].
         + intros x Hx. right. cbn [self set_self] in Hx. rewrite Hp'multi in Hx. unfold m'. fold m in HM2.
           destruct (sc_multi sc); simpl.
           * rewrite HM2. exact Hx.
@@ -566,7 +567,8 @@ Section Main.
     cbn [Binder.exec fst snd].
     match goal with |- context [INV ?st] => set (sb := st) end.
     assert (HIb : INV sb).
-    { apply (INV_set_mem s1 (mem_of p') HI1). rewrite Hst. split.
+    { apply (INV_set_mem s1 (mem_of p') HI1). rewrite Hst.
+      split; [| split; [| intros Hx; rewrite Hfr in Hx; discriminate]].
       - intros x Hx. right. exact Hx.
       - cbn [self set_self mem_of m_plain]. intros x Hx. right. rewrite Hx. reflexivity. }
     split; [exact HIb |].
@@ -660,10 +662,10 @@ Section Main.
     /\ (s_nfail s' = s_nfail s -> dp_ok -> Live (s_store s) -> (exists i, r = Some i) /\ Live (s_store s')).
 
   Lemma reserve_gpu_spec g s :
-    INV s -> M s ->
+    INV s -> M s -> sc_fraction sc = true ->
     rg_post g s (fst (exec (reserve_gpu sc g) s)) (snd (exec (reserve_gpu sc g) s)).
   Proof.
-    intros HI HM. unfold reserve_gpu. apin E0 s1 r1.
+    intros HI HM Hfr. unfold reserve_gpu. apin E0 s1 r1.
     destruct (ro_step (AList (LRsv g)) _ _ _ HI eq_refl E0) as (HI1 & Hst1 & Hm1 & Hn1 & Hlv1).
     assert (HM1 : M s1) by (unfold M; rewrite Hst1, Hm1; exact HM).
     assert (Hnone : forall P : prog (option nat), P = Ret None ->
@@ -696,7 +698,7 @@ Section Main.
       destruct C2 as (Cm & Cself & Calive & Ccap & Cevar & Cbr & Cno & Cnf).
       unfold rg_post. destruct oi as [i |].
       + assert (HM2 : M s2) by (unfold M; rewrite Cm, Cself; exact HM1).
-        destruct (label_consumer_spec g i s2 C1 HM2) as (L1 & L2 & L3 & L4 & L5 & L6).
+        destruct (label_consumer_spec g i s2 C1 HM2 Hfr) as (L1 & L2 & L3 & L4 & L5 & L6).
         split; [exact L1 |]. split; [lia |]. split; [congruence |]. split; [congruence |].
         pose proof (C3 i eq_refl) as Ho2. rewrite Hst1 in Ho2.
         split.
@@ -726,7 +728,7 @@ Section Main.
       { assert (Hx : In p (filter (fg g) (others (s_store s)))) by (rewrite <- Hl; left; reflexivity).
         apply filter_In in Hx. tauto. }
       destruct (p_idx p) as [i |] eqn:Ei.
-      + unfold rg_post. destruct (label_consumer_spec g i s1 HI1 HM1) as (L1 & L2 & L3 & L4 & L5 & L6).
+      + unfold rg_post. destruct (label_consumer_spec g i s1 HI1 HM1 Hfr) as (L1 & L2 & L3 & L4 & L5 & L6).
         split; [exact L1 |]. split; [lia |]. split; [congruence |]. split; [congruence |].
         split.
         * intros i' Hi'. destruct (L5 i' Hi') as (-> & LM & Lo & Lp & Lmu & Lg).
@@ -767,16 +769,16 @@ Section Main.
           M s' /\ Lab (done ++ gs) (self (s_store s')) /\ all_idx (done ++ gs) (s_store s') = Some idxs)
     /\ (s_nfail s' = s_nfail s -> dp_ok -> Live (s_store s) -> (exists idxs, r = Some idxs) /\ Live (s_store s')).
 
-  Lemma reserve_loop_spec gs : forall done acc s,
+  Lemma reserve_loop_spec gs : sc_fraction sc = true -> forall done acc s,
     INV s -> M s -> Lab done (self (s_store s)) -> all_idx done (s_store s) = Some acc ->
     rl_post done gs s (fst (exec (reserve_loop sc gs acc) s)) (snd (exec (reserve_loop sc gs acc) s)).
   Proof.
-    induction gs as [| g gs IH]; intros done acc s HI HM HL HA.
+    intros Hfr. induction gs as [| g gs IH]; intros done acc s HI HM HL HA.
     - unfold rl_post. cbn [reserve_loop Binder.exec fst snd]. rewrite app_nil_r.
       split; [exact HI |]. split; [lia |]. split; [reflexivity |]. split; [reflexivity |].
       split; [intros idxs Hx; injection Hx as <-; auto |]. intros _ _ Hl. eauto.
     - cbn [reserve_loop]. rewrite exec_bind.
-      destruct (reserve_gpu_spec g s HI HM) as (R1 & R2 & R3 & R4 & R5 & R6).
+      destruct (reserve_gpu_spec g s HI HM Hfr) as (R1 & R2 & R3 & R4 & R5 & R6).
       destruct (exec (reserve_gpu sc g) s) as [s1 oi]. cbn [fst snd] in *.
       destruct oi as [i |].
       + destruct (R5 i eq_refl) as (RM & Rg & Rpres & Rp & Rmu & Rgin).
@@ -1103,7 +1105,7 @@ Section Main.
 
   (** reserveGPUs *)
   Lemma reserve_gpus_spec s :
-    INV s -> M s ->
+    INV s -> M s -> sc_fraction sc = true ->
     let s' := fst (exec (reserve_gpus sc) s) in
     let r := snd (exec (reserve_gpus sc) s) in
     INV s' /\ s_nfail s <= s_nfail s'
@@ -1116,13 +1118,13 @@ Section Main.
     /\ (s_nfail s' = s_nfail s -> dp_ok -> Live (s_store s) -> sc_groups sc <> [] ->
         fst r = ENone /\ Live (s_store s')).
   Proof.
-    intros HI HM. unfold reserve_gpus. destruct (sc_groups sc) as [| g gs] eqn:Eg.
+    intros HI HM Hfr. unfold reserve_gpus. destruct (sc_groups sc) as [| g gs] eqn:Eg.
     - cbn [Binder.exec fst snd]. split; [exact HI |]. split; [lia |]. split; [reflexivity |]. split; [reflexivity |].
       split; [reflexivity |]. intros _ _ _ Hne. contradiction.
     - rewrite exec_bind.
       assert (HL0 : Lab [] (self (s_store s))).
       { unfold Lab. destruct (sc_multi sc); [intros x [] | intros x Hx; discriminate]. }
-      destruct (reserve_loop_spec (g :: gs) [] [] s HI HM HL0 eq_refl) as (R1 & R2 & R3 & R4 & R5 & R6).
+      destruct (reserve_loop_spec (g :: gs) Hfr [] [] s HI HM HL0 eq_refl) as (R1 & R2 & R3 & R4 & R5 & R6).
       destruct (exec (reserve_loop sc (g :: gs) []) s) as [s1 r1]. cbn [fst snd] in *.
       destruct r1 as [idxs |]; cbn [Binder.exec fst snd].
       + split; [exact R1 |]. split; [exact R2 |]. split; [exact R3 |]. split; [exact R4 |].
@@ -1153,7 +1155,7 @@ Section Main.
     /\ (s_nfail s1 = s_nfail s -> r1 = ROk).
   Proof.
     intros HG Hn E. pose proof (step_spec _ _ _ _ _ _ E) as (Hm & Hk & Hke & [Hf | Hr]).
-    - pose proof (G_faulted _ _ _ _ HG ltac:(discriminate) Hf) as HG1.
+    - pose proof (G_faulted (ABind true) _ _ _ HG ltac:(discriminate) Hf) as HG1.
       destruct Hf as (-> & Hst & Hnf & _).
       split; [exact HG1 |]. split; [exact Hm |]. split; [exact Hk |]. split; [exact Hke |]. split; [lia |].
       split; [discriminate |]. split; [auto |]. intros; lia.
@@ -1169,4 +1171,1185 @@ Section Main.
       + split; [exact Hm |]. split; [exact Hk |]. split; [exact Hke |]. split; [lia |].
         split; [auto |]. split; [intros Hx; contradiction | auto].
   Qed.
+
+  Definition same_side (st st' : store) : Prop :=
+    p_plain (self st') = p_plain (self st) /\ p_multi (self st') = p_multi (self st)
+    /\ others st' = others st /\ cm_cap st' = cm_cap st /\ cm_evar st' = cm_evar st
+    /\ br st' = br st /\ node_ok st' = node_ok st.
+
+  Definition bind_tail : prog err :=
+    Api (APatchRecv (recv_type sc)) (fun r1 =>
+      match r1 with
+      | RPod p => SetMem (mem_of p) (Api (ABind true) (fun r2 => match r2 with ROk => Ret ENone | _ => Ret EErr end))
+      | _ => Ret EErr
+      end).
+
+  Lemma bind_tail_spec s :
+    INV s ->
+    let s' := fst (exec bind_tail s) in
+    let e := snd (exec bind_tail s) in
+    s_nfail s <= s_nfail s'
+    /\ match e with
+       | ENone => G s' /\ marks_none s' /\ p_node (self (s_store s')) = 1
+                  /\ p_recv (self (s_store s')) = Some (recv_type sc) /\ same_side (s_store s) (s_store s')
+       | EErr => INV s'
+       | EInvalid => False
+       end
+    /\ (s_nfail s' = s_nfail s -> e = ENone).
+  Proof.
+    intros HI. unfold bind_tail. apin E1 s1 r1.
+    assert (Halive : self_alive (s_store s) = true) by apply HI.
+    assert (Hreach : reached dp (APatchRecv (recv_type sc)) s s1 r1 ->
+              s_store s1 = set_self (s_store s) (with_recv (self (s_store s)) (Some (recv_type sc)))
+              /\ r1 = RPod (with_recv (self (s_store s)) (Some (recv_type sc)))).
+    { intros (_ & _ & _ & Hd & _). cbn [is_watch] in Hd. apply (do_patch_recv _ _ _ _ _ Halive Hd). }
+    assert (HI1 : INV s1).
+    { eapply INV_step; eauto; [exact I |]. intros Hr. destruct (Hreach Hr) as (Hst & _). rewrite Hst.
+      destruct HI as (HG & _ & HJ & HK & Hn & Hbr & Hno & _). destruct HG as ((Ha & Hn0 & Hrs & Hp & Ho) & _).
+      split; [unfold base; simpl; auto 10 |]. split; [exact Hn |]. split; [exact HJ |]. split; [exact HK |].
+      split; [exact Hbr |]. split; [exact Hno |]. auto. }
+    destruct (step_nfail _ _ _ _ E1) as (Hle1 & _ & Hrch1).
+    pose proof (step_spec _ _ _ _ _ _ E1) as (Hm1 & _ & _ & Hcase).
+    destruct r1;
+      try (cbn [Binder.exec fst snd]; split; [exact Hle1 |]; split; [exact HI1 |];
+           intros Hq; destruct (Hreach (Hrch1 Hq)) as (_ & Hr); discriminate).
+    assert (Hr : reached dp (APatchRecv (recv_type sc)) s s1 (RPod p)).
+    { destruct Hcase as [(Hq & _) | Hr]; [discriminate | exact Hr]. }
+    destruct (Hreach Hr) as (Hst1 & Hp). injection Hp as ->.
+    cbn [Binder.exec].
+    match goal with |- context [Binder.step _ _ _ ?st] => set (sa := st) end.
+    assert (HIa : INV sa).
+    { apply (INV_set_mem s1 _ HI1). rewrite Hst1. cbn [self set_self with_recv p_multi p_plain mem_of m_multi m_plain].
+      destruct HI as (_ & _ & (_ & _ & J3) & _).
+      split; [intros x Hx; right; exact Hx |]. split; [intros x Hx; right; simpl in Hx |- *; rewrite Hx; reflexivity |].
+      exact J3. }
+    destruct (Binder.step faults dp (ABind true) sa) as [s2 r2] eqn:E2.
+    assert (Hna : p_node (self (s_store sa)) = 0) by apply HIa.
+    destruct (bind_step sa s2 r2 (proj1 HIa) Hna E2) as (HG2 & Hm2 & Hk2 & Hke2 & Hle2 & Hok2 & Hnok2 & Hlv2).
+    assert (Hnfa : s_nfail sa = s_nfail s1) by reflexivity.
+    assert (Hsta : s_store sa = s_store s1) by reflexivity.
+    assert (Hfail : r2 <> ROk -> INV s2).
+    { intros Hne. specialize (Hnok2 Hne). destruct HIa as (_ & (Ka & Kea) & HJa & HKa & Hn0a & Hbra & Hnoa & Hsha).
+      unfold INV, marks_none. rewrite Hm2, Hk2, Hke2, Hnok2. auto 10. }
+    destruct r2;
+      try (cbn [Binder.exec fst snd]; split; [lia |]; split; [apply Hfail; discriminate |];
+           intros Hq; assert (Hq2 : s_nfail s2 = s_nfail sa) by lia; specialize (Hlv2 Hq2); discriminate).
+    cbn [Binder.exec fst snd]. split; [lia |]. specialize (Hok2 eq_refl).
+    split; [| reflexivity].
+    split; [exact HG2 |].
+    split; [unfold marks_none; rewrite Hk2, Hke2; apply HIa |].
+    rewrite Hok2, Hsta, Hst1. cbn [self set_self with_node with_recv p_node p_recv].
+    split; [reflexivity |]. split; [reflexivity |].
+    unfold same_side. simpl. auto 10.
+  Qed.
+
+  Definition bound_facts (s' : state) : Prop :=
+    G s' /\ marks_none s' /\ p_node (self (s_store s')) = 1
+    /\ p_recv (self (s_store s')) = Some (recv_type sc)
+    /\ (sc_fraction sc = true ->
+        exists idxs, Lab (sc_groups sc) (self (s_store s')) /\ all_idx (sc_groups sc) (s_store s') = Some idxs
+                     /\ cm_facts idxs (s_store s'))
+    /\ br (s_store s') = br0 /\ node_ok (s_store s') = node_ok init /\ (SH init -> SH (s_store s')).
+
+
+  Definition bp_post (s s' : state) (e : err) : Prop :=
+    s_nfail s <= s_nfail s'
+    /\ match e with
+       | ENone => bound_facts s'
+       | EErr => INV s'
+       | EInvalid => INV s' /\ sc_fraction sc = true /\ sc_groups sc = []
+       end
+    /\ (s_nfail s' = s_nfail s -> dp_ok -> Live (s_store s) -> attemptable_sc sc -> e = ENone).
+
+  (** everything of Bind after the reservations *)
+  Definition bind_rest (idxs : list nat) : prog err :=
+    GetMem (fun m => SetMem (mem_with_node m 1) (
+      if negb (sc_k8s_ok sc)
+      then GetMem (fun m2 => SetMem (mem_with_node m2 0) (Ret EErr))
+      else
+        e1 <- (if sc_fraction sc then gpusharing_prebind sc idxs else Ret false) ;;
+        if (e1 : bool) then Ret EErr else bind_tail)).
+
+  Lemma bind_rest_spec idxs s :
+    INV s ->
+    (sc_fraction sc = true -> Lab (sc_groups sc) (self (s_store s)) /\ all_idx (sc_groups sc) (s_store s) = Some idxs) ->
+    let s' := fst (exec (bind_rest idxs) s) in
+    let e := snd (exec (bind_rest idxs) s) in
+    s_nfail s <= s_nfail s'
+    /\ match e with ENone => bound_facts s' | EErr => INV s' | EInvalid => False end
+    /\ (s_nfail s' = s_nfail s -> sc_k8s_ok sc = true -> (sc_fraction sc = true -> sc_cmann sc = true) -> e = ENone).
+  Proof.
+    intros HI Hres. unfold bind_rest. cbn [Binder.exec].
+    match goal with |- context [Binder.exec _ _ _ _ ?st] => set (sa := st) end.
+    assert (HIa : INV sa).
+    { apply (INV_set_mem s _ HI). destruct HI as (_ & _ & HJ & _). exact HJ. }
+    assert (Hsa : s_store sa = s_store s /\ s_nfail sa = s_nfail s) by (split; reflexivity).
+    destruct Hsa as (Hsta & Hnfa).
+    destruct (sc_k8s_ok sc) eqn:Ek; cbn [negb].
+    2: { cbn [Binder.exec fst snd].
+         match goal with |- context [INV ?st] => set (sb := st) end.
+         assert (HIb : INV sb). { apply (INV_set_mem sa _ HIa). destruct HIa as (_ & _ & HJ & _). exact HJ. }
+         split; [unfold sb; simpl; lia |]. split; [exact HIb |]. intros _ Hx. discriminate. }
+    rewrite exec_bind.
+    assert (Hpre : exists s1 e1, exec (if sc_fraction sc then gpusharing_prebind sc idxs else Ret false) sa = (s1, e1)
+                   /\ INV s1 /\ frame_cm sa s1
+                   /\ (e1 = false -> sc_fraction sc = true -> cm_facts idxs (s_store s1))
+                   /\ (s_nfail s1 = s_nfail sa -> (sc_fraction sc = true -> sc_cmann sc = true) -> e1 = false)).
+    { destruct (sc_fraction sc) eqn:Efr.
+      - destruct (gpusharing_prebind_spec idxs sa HIa Efr) as (P1 & P2 & P3 & P4).
+        destruct (exec (gpusharing_prebind sc idxs) sa) as [s1 e1]. exists s1, e1. cbn [fst snd] in *.
+        split; [reflexivity |]. split; [exact P1 |]. split; [exact P2 |]. split; [auto |]. intros Hq Hc. apply P4; auto.
+      - exists sa, false. split; [reflexivity |]. split; [exact HIa |]. split; [apply frame_cm_refl |].
+        split; [intros _ Hx; discriminate | auto]. }
+    destruct Hpre as (s1 & e1 & -> & HI1 & F1 & Hfacts & Hlv1).
+    destruct F1 as (Fm & Fself & Falive & Foth & Fbr & Fno & Fnf).
+    destruct e1.
+    { cbn [Binder.exec fst snd]. split; [lia |]. split; [exact HI1 |].
+      intros Hq _ Hc. specialize (Hlv1 ltac:(lia) Hc). discriminate. }
+    destruct (bind_tail_spec s1 HI1) as (T1 & T2 & T3).
+    destruct (exec bind_tail s1) as [s2 e2]. cbn [fst snd] in *.
+    split; [lia |]. split.
+    - destruct e2; [| exact T2 | exact T2].
+      destruct T2 as (HG2 & Hmk2 & Hn2 & Hrecv2 & (S1 & S2 & S3 & S4 & S5 & S6 & S7)).
+      unfold bound_facts. split; [exact HG2 |]. split; [exact Hmk2 |]. split; [exact Hn2 |]. split; [exact Hrecv2 |].
+      destruct HI1 as (_ & _ & _ & _ & _ & Hbr1 & Hno1 & Hsh1).
+      split.
+      + intros Hfr. destruct (Hres Hfr) as (HL & HA). exists idxs.
+        split; [unfold Lab in *; rewrite S1, S2, Fself, Hsta; exact HL |].
+        split; [rewrite (all_idx_others _ _ _ S3), (all_idx_others _ (s_store sa) _ Foth), Hsta; exact HA |].
+        specialize (Hfacts eq_refl Hfr). unfold cm_facts, cm_value in *.
+        destruct vis_cm; cbn [cm_get] in *; rewrite ?S4, ?S5; exact Hfacts.
+      + split; [congruence |]. split; [congruence |]. intros Hi. specialize (Hsh1 Hi).
+        unfold SH, rsv_only, names_ok in *. rewrite S3. exact Hsh1.
+    - intros Hq _ Hc. apply T3. lia.
+  Qed.
+
+  Lemma bind_prog_eq :
+    bind_prog sc =
+    (e0 <- sync_for_node ;;
+     if (e0 : bool) then Ret EErr else
+     r <- (if sc_fraction sc then reserve_gpus sc else Ret (ENone, [])) ;;
+     match fst r with
+     | ENone => bind_rest (snd r)
+     | e => Ret e
+     end).
+  Proof. reflexivity. Qed.
+
+  (** Binder.Bind *)
+  Lemma bind_prog_spec s :
+    INV s -> M s ->
+    bp_post s (fst (exec (bind_prog sc) s)) (snd (exec (bind_prog sc) s)).
+  Proof.
+    intros HI HM. rewrite bind_prog_eq, exec_bind.
+    destruct (sync_for_node_spec faults dp ord s (proj1 HI)) as (S1 & S2 & S3).
+    destruct (exec sync_for_node s) as [s1 e0]. cbn [fst snd] in *.
+    assert (HI1 : INV s1) by (eapply INV_only_others; eauto).
+    pose proof S2 as (O1 & _ & _ & _ & _ & _ & O7 & _ & _ & O10 & O11 & _).
+    assert (HM1 : M s1) by (unfold M; rewrite O7, O1; exact HM).
+    unfold bp_post. destruct e0.
+    { cbn [Binder.exec fst snd]. split; [exact O11 |]. split; [exact HI1 |].
+      intros Hq _ ((Hro & _) & _) _. specialize (S3 Hq Hro). discriminate. }
+    rewrite exec_bind.
+    assert (Hres : exists s2 r, exec (if sc_fraction sc then reserve_gpus sc else Ret (ENone, [])) s1 = (s2, r)
+              /\ INV s2 /\ s_nfail s1 <= s_nfail s2
+              /\ match fst r with
+                 | ENone => sc_fraction sc = true -> Lab (sc_groups sc) (self (s_store s2)) /\ all_idx (sc_groups sc) (s_store s2) = Some (snd r)
+                 | EInvalid => sc_fraction sc = true /\ sc_groups sc = []
+                 | EErr => True
+                 end
+              /\ (s_nfail s2 = s_nfail s1 -> dp_ok -> Live (s_store s1) ->
+                  (sc_fraction sc = true -> sc_groups sc <> []) -> fst r = ENone)).
+    { destruct (sc_fraction sc) eqn:Efr.
+      - destruct (reserve_gpus_spec s1 HI1 HM1 Efr) as (R1 & R2 & _ & _ & R5 & R6).
+        destruct (exec (reserve_gpus sc) s1) as [s2 r]. exists s2, r. cbn [fst snd] in *.
+        split; [reflexivity |]. split; [exact R1 |]. split; [exact R2 |]. split.
+        + destruct (fst r); [intros _; destruct R5 as (_ & A & B); auto | exact I | auto].
+        + intros Hq Hdp Hl Hne. apply R6; auto.
+      - exists s1, (ENone, []). split; [reflexivity |]. split; [exact HI1 |]. split; [lia |].
+        split; [intros Hx; discriminate | reflexivity]. }
+    destruct Hres as (s2 & r & -> & HI2 & Hle2 & Hr & Hlv2).
+    assert (Hl1 : Live (s_store s) -> Live (s_store s1)) by (intros Hl; eapply Live_incl; eauto).
+    destruct (fst r) eqn:Er.
+    - destruct (bind_rest_spec (snd r) s2 HI2 Hr) as (B1 & B2 & B3).
+      destruct (exec (bind_rest (snd r)) s2) as [s3 e]. cbn [fst snd] in *.
+      split; [lia |]. split.
+      + destruct e; [exact B2 | exact B2 | contradiction].
+      + intros Hq Hdp Hl (Hk & Hc). apply B3; [lia | exact Hk | intros Hfr; apply (Hc Hfr)].
+    - cbn [Binder.exec fst snd]. split; [lia |]. split; [exact HI2 |].
+      intros Hq Hdp Hl (_ & Hc). exfalso.
+      assert (Hx : ENone = EErr); [| discriminate]. symmetry. apply Hlv2; auto; [lia |].
+      intros Hfr. apply (Hc Hfr).
+    - cbn [Binder.exec fst snd]. split; [lia |]. destruct Hr as (Hfr & Hg). split; [auto |].
+      intros _ _ _ (_ & Hc). exfalso. destruct (Hc Hfr) as (_ & Hne). contradiction.
+  Qed.
 End Main.
+
+(** * Rollback, the deferred status update, the whole reconcile *)
+Section Roll.
+  Variable faults : nat -> fault.
+  Variable dp : nat -> option nat.
+  Variable ord : nat -> list gid.
+  Variable sc : scen.
+  Variable init : store.
+  Variable br0 : option brst.
+  Variable mk0 : option (nat * nat).
+  Variable mke0 : option nat.
+  Notation exec := (Binder.exec faults dp ord).
+  Notation step := (Binder.step faults dp).
+  Notation INV := (INV sc init br0 mk0 mke0).
+
+  Ltac apin E sn rn :=
+    cbn [Binder.exec];
+    match goal with
+    | |- context [Binder.step ?f ?d ?c ?s] => destruct (Binder.step f d c s) as [sn rn] eqn:E
+    end.
+
+  Definition CleanCM (st : store) : Prop :=
+    (opt_is_some (cm_cap st) = true -> opt_is_some (cm_cap init) = true)
+    /\ (opt_is_some (cm_evar st) = true -> opt_is_some (cm_evar init) = true).
+  Definition CleanLab (st : store) : Prop :=
+    new_plain (self init) (self st) = false /\ new_multi (self init) (self st) = [].
+
+  Lemma clean_of st : CleanCM st -> CleanLab st -> clean init st = true.
+  Proof.
+    intros (C1 & C2) (L1 & L2). unfold clean. rewrite L1, L2. simpl. unfold new_cms. simpl.
+    destruct (opt_is_some (cm_cap st)) eqn:E1; [rewrite (C1 eq_refl) |];
+      (destruct (opt_is_some (cm_evar st)) eqn:E2; [rewrite (C2 eq_refl) |]); reflexivity.
+  Qed.
+
+  Definition rb_cms : prog unit :=
+    if sc_fraction sc && sc_cmann sc
+    then Api (ADeleteCM CmCap) (fun _ => Api (ADeleteCM CmEvar) (fun _ => Ret tt))
+    else Ret tt.
+
+  Lemma delete_cm_step x s s1 r1 :
+    INV s -> KF sc -> x <> CmOther -> step (ADeleteCM x) s = (s1, r1) ->
+    INV s1 /\ frame_cm s s1
+    /\ (forall y, y <> x -> cm_get y (s_store s1) = cm_get y (s_store s))
+    /\ (s_nfail s1 = s_nfail s -> cm_get x (s_store s1) = None).
+  Proof.
+    intros HI HK Hx E.
+    assert (Hreach : reached dp (ADeleteCM x) s s1 r1 ->
+              (s_store s1 = cm_put x None (s_store s)) \/ (cm_get x (s_store s) = None /\ s_store s1 = s_store s)).
+    { intros (_ & _ & _ & Hd & _). cbn [is_watch] in Hd.
+      destruct (do_delete_cm _ _ _ _ _ Hd) as [(Hst & _) | (Hn & Hst & _)]; auto. }
+    destruct (step_cm faults dp sc init br0 mk0 mke0 (ADeleteCM x) _ _ _ HI HK I E) as (HI1 & F1).
+    { intros Hr. destruct (Hreach Hr) as [Hst | (_ & Hst)]; rewrite Hst; [apply cm_put_same |].
+      unfold same_but_cm. auto. }
+    split; [exact HI1 |]. split; [exact F1 |].
+    pose proof (step_spec _ _ _ _ _ _ E) as (_ & _ & _ & Hcase).
+    destruct (step_nfail faults dp _ _ _ _ E) as (_ & _ & Hrch).
+    split.
+    - intros y Hy. destruct Hcase as [Hf | Hr].
+      + destruct Hf as (_ & Hst & _). rewrite Hst. reflexivity.
+      + destruct (Hreach Hr) as [Hst | (_ & Hst)]; rewrite Hst; [apply cm_get_put_other, Hy | reflexivity].
+    - intros Hq. destruct (Hreach (Hrch Hq)) as [Hst | (Hn & Hst)]; rewrite Hst; [apply cm_get_put, Hx | exact Hn].
+  Qed.
+
+  Lemma rb_cms_spec s :
+    INV s ->
+    let s' := fst (exec rb_cms s) in
+    INV s' /\ frame_cm s s' /\ (s_nfail s' = s_nfail s -> CleanCM (s_store s')).
+  Proof.
+    intros HI. unfold rb_cms. destruct (sc_fraction sc && sc_cmann sc) eqn:Ek.
+    - assert (HK : KF sc) by exact Ek.
+      apin E1 s1 r1. destruct (delete_cm_step CmCap _ _ _ HI HK ltac:(discriminate) E1) as (HI1 & F1 & O1 & N1).
+      apin E2 s2 r2. destruct (delete_cm_step CmEvar _ _ _ HI1 HK ltac:(discriminate) E2) as (HI2 & F2 & O2 & N2).
+      cbn [Binder.exec fst]. split; [exact HI2 |]. split; [eapply frame_cm_trans; eauto |].
+      intros Hq. destruct F1 as (_&_&_&_&_&_&?). destruct F2 as (_&_&_&_&_&_&?).
+      specialize (N1 ltac:(lia)). specialize (N2 ltac:(lia)).
+      pose proof (O2 CmCap ltac:(discriminate)) as Hc. cbn [cm_get] in *.
+      unfold CleanCM. rewrite Hc, N1, N2. simpl. split; discriminate.
+    - cbn [Binder.exec fst]. split; [exact HI |]. split; [apply frame_cm_refl |]. intros _.
+      destruct HI as (_ & _ & _ & [HK | HK] & _); [unfold KF in HK; congruence | exact HK].
+  Qed.
+
+  Definition sync_tail : prog unit := _ <- sync_for_node ;; Ret tt.
+
+  Lemma sync_tail_spec s :
+    INV s ->
+    let s' := fst (exec sync_tail s) in
+    INV s' /\ s_nfail s <= s_nfail s' /\ self (s_store s') = self (s_store s)
+    /\ cm_cap (s_store s') = cm_cap (s_store s) /\ cm_evar (s_store s') = cm_evar (s_store s).
+  Proof.
+    intros HI. unfold sync_tail. rewrite exec_bind.
+    destruct (sync_for_node_spec faults dp ord s (proj1 HI)) as (S1 & S2 & _).
+    destruct (exec sync_for_node s) as [s1 e]. cbn [fst snd Binder.exec] in *.
+    split; [eapply INV_only_others; eauto |].
+    destruct S2 as (O1 & _ & O3 & O4 & _ & _ & _ & _ & _ & _ & O11 & _). auto.
+  Qed.
+
+  Definition rb_labels : prog unit :=
+    GetMem (fun m =>
+      match m_plain m, m_multi m with
+      | None, [] => sync_tail
+      | _, _ =>
+          Api (ARemoveLabels (opt_is_some (m_plain m)) (m_multi m)) (fun r =>
+            match r with
+            | RPod p => SetMem (mem_of p) sync_tail
+            | _ => sync_tail
+            end)
+      end).
+
+  Lemma new_multi_nil (a b : pod) :
+    (forall g, In g (p_multi b) -> In g (p_multi a)) -> new_multi a b = [].
+  Proof.
+    intros H. unfold new_multi. apply filter_none. intros g Hg. apply negb_false_iff, mem_nat_In, H, Hg.
+  Qed.
+
+  Lemma rb_labels_spec s :
+    INV s -> sc_fraction sc = true ->
+    let s' := fst (exec rb_labels s) in
+    INV s' /\ s_nfail s <= s_nfail s'
+    /\ cm_cap (s_store s') = cm_cap (s_store s) /\ cm_evar (s_store s') = cm_evar (s_store s)
+    /\ (s_nfail s' = s_nfail s -> CleanLab (s_store s')).
+  Proof.
+    intros HI Hfr. unfold rb_labels. cbn [Binder.exec].
+    pose proof HI as (_ & _ & (J1 & J2 & _) & _).
+    assert (Hnolab : m_plain (s_mem s) = None -> m_multi (s_mem s) = [] -> CleanLab (s_store s)).
+    { intros Hp Hm. rewrite Hp in J2. rewrite Hm in J1. split.
+      - unfold new_plain. destruct (p_plain (self (s_store s))) as [g |] eqn:Eg; [| reflexivity].
+        destruct (J2 g eq_refl) as [Hi | Hx]; [| discriminate]. rewrite Hi. simpl. rewrite Nat.eqb_refl. reflexivity.
+      - apply new_multi_nil. intros g Hg. destruct (J1 g Hg) as [Hi | []]. exact Hi. }
+    assert (Hsync : forall sx, INV sx -> self (s_store sx) = self (s_store sx) ->
+              let s' := fst (exec sync_tail sx) in
+              INV s' /\ s_nfail sx <= s_nfail s' /\ self (s_store s') = self (s_store sx)
+              /\ cm_cap (s_store s') = cm_cap (s_store sx) /\ cm_evar (s_store s') = cm_evar (s_store sx)).
+    { intros sx Hx _. apply sync_tail_spec, Hx. }
+    assert (Hremove :
+      let c := ARemoveLabels (opt_is_some (m_plain (s_mem s))) (m_multi (s_mem s)) in
+      let P := Api c (fun r => match r with RPod p => SetMem (mem_of p) sync_tail | _ => sync_tail end) in
+      let s' := fst (exec P s) in
+      INV s' /\ s_nfail s <= s_nfail s'
+      /\ cm_cap (s_store s') = cm_cap (s_store s) /\ cm_evar (s_store s') = cm_evar (s_store s)
+      /\ (s_nfail s' = s_nfail s -> CleanLab (s_store s'))).
+    { intros c P. unfold P. apin E1 s1 r1.
+      assert (Halive : self_alive (s_store s) = true) by apply HI.
+      set (p' := with_labels (self (s_store s))
+                   (if opt_is_some (m_plain (s_mem s)) then None else p_plain (self (s_store s)))
+                   (filter (fun g => negb (mem_nat g (m_multi (s_mem s)))) (p_multi (self (s_store s))))).
+      assert (Hreach : reached dp c s s1 r1 -> s_store s1 = set_self (s_store s) p' /\ r1 = RPod p').
+      { intros (_ & _ & _ & Hd & _). cbn [is_watch] in Hd. apply (do_remove_labels _ _ _ _ _ _ Halive Hd). }
+      assert (Hclean : CleanLab (set_self (s_store s) p')).
+      { split; cbn [self set_self].
+        - unfold new_plain, p'. cbn [p_plain with_labels].
+          destruct (opt_is_some (m_plain (s_mem s))) eqn:Em; [reflexivity |].
+          destruct (p_plain (self (s_store s))) as [g |] eqn:Eg; [| reflexivity].
+          destruct (J2 g eq_refl) as [Hi | Hx]; [| congruence]. rewrite Hi. simpl. rewrite Nat.eqb_refl. reflexivity.
+        - apply new_multi_nil. unfold p'. cbn [p_multi with_labels]. intros g Hg.
+          apply filter_In in Hg as (Hg & Hn). apply negb_true_iff, mem_nat_false in Hn.
+          destruct (J1 g Hg) as [Hi | Hx]; [exact Hi | contradiction]. }
+      assert (HI1 : INV s1).
+      { eapply INV_step; eauto; [exact I |]. intros Hr. destruct (Hreach Hr) as (Hst & _). rewrite Hst.
+        destruct HI as (HG & _ & (_ & _ & J3) & HK & Hn & Hbr & Hno & _).
+        destruct HG as ((Ha & Hn0 & Hrs & Hp & Ho) & _).
+        split; [unfold base; simpl; auto 10 |]. split; [exact Hn |]. split.
+        - cbn [self set_self]. unfold p'. cbn [p_plain p_multi with_labels]. split; [| split].
+          + intros g Hg. apply filter_In in Hg as (Hg & _). apply J1, Hg.
+          + intros g Hg. destruct (opt_is_some (m_plain (s_mem s))) eqn:Em; [discriminate | auto].
+          + intros Hx. congruence.
+        - split; [exact HK |]. split; [exact Hbr |]. split; [exact Hno |]. auto. }
+      destruct (step_nfail faults dp _ _ _ _ E1) as (Hle1 & _ & Hrch1).
+      pose proof (step_spec _ _ _ _ _ _ E1) as (Hm1 & _ & _ & Hcase).
+      assert (Hcms1 : cm_cap (s_store s1) = cm_cap (s_store s) /\ cm_evar (s_store s1) = cm_evar (s_store s)).
+      { destruct Hcase as [Hf | Hr].
+        - destruct Hf as (_ & Hst & _). rewrite Hst. auto.
+        - destruct (Hreach Hr) as (Hst & _). rewrite Hst. auto. }
+      destruct Hcms1 as (C1 & C2).
+      destruct r1;
+        try (destruct (sync_tail_spec s1 HI1) as (T1 & T2 & T3 & T4 & T5);
+             split; [exact T1 |]; split; [lia |]; split; [congruence |]; split; [congruence |];
+             intros Hq; exfalso; assert (Hq1 : s_nfail s1 = s_nfail s) by lia;
+             destruct (Hreach (Hrch1 Hq1)) as (_ & Hr); discriminate).
+      assert (Hr : reached dp c s s1 (RPod p)).
+      { destruct Hcase as [(Hq & _) | Hr]; [discriminate | exact Hr]. }
+      destruct (Hreach Hr) as (Hst1 & Hp). injection Hp as ->.
+      cbn [Binder.exec].
+      match goal with |- context [Binder.exec _ _ _ sync_tail ?st] => set (sa := st) end.
+      assert (HIa : INV sa).
+      { apply (INV_set_mem sc init br0 mk0 mke0 s1 _ HI1). rewrite Hst1. cbn [self set_self].
+        split; [intros g Hg; right; exact Hg |].
+        split; [intros g Hg; right; cbn [self set_self] in Hg; cbn [mem_of m_plain]; rewrite Hg; reflexivity | intros Hx; congruence]. }
+      destruct (sync_tail_spec sa HIa) as (T1 & T2 & T3 & T4 & T5).
+      assert (Hsa : s_store sa = s_store s1 /\ s_nfail sa = s_nfail s1) by (split; reflexivity).
+      destruct Hsa as (Hsta & Hnfa).
+      split; [exact T1 |]. split; [lia |]. split; [congruence |]. split; [congruence |].
+      intros _. unfold CleanLab. rewrite T3, Hsta, Hst1. exact Hclean. }
+    destruct (m_plain (s_mem s)) eqn:Ep; [exact Hremove |].
+    destruct (m_multi (s_mem s)) eqn:Em; [| exact Hremove].
+    destruct (sync_tail_spec s HI) as (T1 & T2 & T3 & T4 & T5).
+    split; [exact T1 |]. split; [exact T2 |]. split; [exact T4 |]. split; [exact T5 |].
+    intros _. unfold CleanLab. rewrite T3. apply Hnolab; reflexivity.
+  Qed.
+End Roll.
+
+Section Final.
+  Variable faults : nat -> fault.
+  Variable dp : nat -> option nat.
+  Variable ord : nat -> list gid.
+  Variable sc : scen.
+  Variable init : store.
+  Notation exec := (Binder.exec faults dp ord).
+  Notation step := (Binder.step faults dp).
+
+  Ltac apin E sn rn :=
+    cbn [Binder.exec];
+    match goal with
+    | |- context [Binder.step ?f ?d ?c ?s] => destruct (Binder.step f d c s) as [sn rn] eqn:E
+    end.
+
+  Lemma INV_remark b0 mk mke mk' mke' s s' :
+    INV sc init b0 mk mke s ->
+    s_store s' = s_store s -> s_mem s' = s_mem s -> s_log s' = s_log s -> s_hist s' = s_hist s ->
+    s_mark s' = mk' -> s_mark_end s' = mke' ->
+    INV sc init b0 mk' mke' s'.
+  Proof.
+    intros (HG & _ & HJ & HK & Hn & Hbr & Hno & Hsh) H1 H2 H3 H4 H5 H6.
+    unfold INV, marks_none. rewrite H1, H2. split; [eapply G_ext; eauto |]. auto 10.
+  Qed.
+
+  Lemma rollback_eq :
+    rollback sc =
+    Mark true (_ <- (_ <- rb_cms sc ;; if sc_fraction sc then rb_labels else Ret tt) ;; Mark false (Ret tt)).
+  Proof. reflexivity. Qed.
+
+  (** Binder.Rollback *)
+  Lemma rollback_spec b0 s :
+    INV sc init b0 None None s ->
+    let s' := fst (exec (rollback sc) s) in
+    INV sc init b0 (Some (s_idx s, s_nfail s)) (Some (s_nfail s')) s'
+    /\ s_nfail s <= s_nfail s'
+    /\ (s_nfail s' = s_nfail s -> clean init (s_store s') = true).
+  Proof.
+    intros HI. rewrite rollback_eq. cbn [Binder.exec].
+    match goal with |- context [Binder.exec _ _ _ _ ?st] => set (sm := st) end.
+    set (mk := Some (s_idx s, s_nfail s)).
+    assert (HIm : INV sc init b0 mk (s_mark_end s) sm).
+    { eapply INV_remark; [exact HI | | | | | |]; reflexivity. }
+    assert (Hnfm : s_nfail sm = s_nfail s) by reflexivity.
+    assert (Hmke : s_mark_end s = None) by apply HI.
+    rewrite Hmke in HIm.
+    rewrite exec_bind, exec_bind.
+    destruct (rb_cms_spec faults dp ord sc init b0 mk None sm HIm) as (C1 & C2 & C3).
+    destruct (exec (rb_cms sc) sm) as [s1 u1]. cbn [fst snd] in *.
+    destruct C2 as (Cm & Cself & _ & _ & _ & _ & Cnf).
+    assert (Hpart : exists s2 u2, exec (if sc_fraction sc then rb_labels else Ret tt) s1 = (s2, u2)
+              /\ INV sc init b0 mk None s2 /\ s_nfail s1 <= s_nfail s2
+              /\ cm_cap (s_store s2) = cm_cap (s_store s1) /\ cm_evar (s_store s2) = cm_evar (s_store s1)
+              /\ (s_nfail s2 = s_nfail s1 -> CleanLab init (s_store s2))).
+    { destruct (sc_fraction sc) eqn:Efr.
+      - destruct (rb_labels_spec faults dp ord sc init b0 mk None s1 C1 Efr) as (L1 & L2 & L3 & L4 & L5).
+        destruct (exec rb_labels s1) as [s2 u2]. exists s2, u2. cbn [fst] in *. auto 10.
+      - exists s1, tt. split; [reflexivity |]. split; [exact C1 |]. split; [lia |]. split; [reflexivity |].
+        split; [reflexivity |]. intros _.
+        destruct C1 as (_ & _ & (_ & _ & J3) & _). destruct (J3 Efr) as (A & B). split.
+        + unfold new_plain. rewrite A. destruct (p_plain (self init)); [| reflexivity].
+          simpl. rewrite Nat.eqb_refl. reflexivity.
+        + apply new_multi_nil. rewrite B. auto. }
+    destruct Hpart as (s2 & u2 & -> & HI2 & Hle2 & Hc1 & Hc2 & Hlab).
+    cbn [Binder.exec fst snd].
+    match goal with |- context [INV _ _ _ _ _ ?st] => set (sf := st) end.
+    assert (Hsf : s_store sf = s_store s2 /\ s_nfail sf = s_nfail s2) by (split; reflexivity).
+    destruct Hsf as (Hstf & Hnff).
+    split.
+    - eapply INV_remark; [exact HI2 | | | | | |]; try reflexivity.
+      cbn [sf s_mark set_mark]. apply HI2.
+    - split; [lia |]. intros Hq. rewrite Hstf. apply clean_of.
+      + destruct (C3 ltac:(lia)) as (K1 & K2). unfold CleanCM. rewrite Hc1, Hc2. auto.
+      + apply Hlab. lia.
+  Qed.
+
+  (** ** The deferred status update *)
+
+  Lemma bc_frame_refl st : bc_frame st st.
+  Proof. unfold bc_frame. auto 10. Qed.
+
+  Lemma bc_frame_trans a b c : bc_frame a b -> bc_frame b c -> bc_frame a c.
+  Proof.
+    intros (A1 & A2 & A3 & A4 & A5 & A6) (B1 & B2 & B3 & B4 & B5 & B6). unfold bc_frame.
+    repeat split; congruence.
+  Qed.
+
+  Lemma bc_frame_fields st st' :
+    bc_frame st st' ->
+    p_name (self st') = p_name (self st) /\ p_rsv (self st') = p_rsv (self st)
+    /\ p_node (self st') = p_node (self st) /\ p_phase (self st') = p_phase (self st)
+    /\ p_plain (self st') = p_plain (self st) /\ p_multi (self st') = p_multi (self st)
+    /\ p_recv (self st') = p_recv (self st).
+  Proof.
+    intros (H & _). destruct (self st'), (self st). unfold with_cond in H. simpl in *.
+    injection H as -> -> -> -> -> -> -> ->. auto 10.
+  Qed.
+
+  Lemma G_bc s s' :
+    G s -> bc_frame (s_store s) (s_store s') -> s_log s' = s_log s -> s_hist s' = s_hist s -> G s'.
+  Proof.
+    intros ((Ha & Hn0 & Hrs & Hp & Ho) & Hh & Hbi & He & Hn) F Hl Hhi.
+    destruct (bc_frame_fields _ _ F) as (F1 & F2 & F3 & F4 & _). destruct F as (_ & Fa & Fo & _).
+    split; [unfold base; rewrite Fa, F1, F2, F4, Fo; auto 10 |].
+    unfold hist_ok. rewrite Hl, Hhi, F3. auto.
+  Qed.
+
+  (** a call that changes at most the request status and the PodBound condition *)
+  Lemma step_bc c s s1 r1 :
+    G s -> not_bind c -> step c s = (s1, r1) ->
+    (reached dp c s s1 r1 -> bc_frame (s_store s) (s_store s1)) ->
+    G s1 /\ bc_frame (s_store s) (s_store s1) /\ s_mem s1 = s_mem s
+    /\ s_mark s1 = s_mark s /\ s_mark_end s1 = s_mark_end s /\ s_nfail s <= s_nfail s1
+    /\ (s_crashed s = true -> s_crashed s1 = true).
+  Proof.
+    intros HG Hnb E Hre. pose proof (step_spec _ _ _ _ _ _ E) as (Hm & Hk & Hke & [Hf | Hr]).
+    - assert (Hc : c <> ABind false) by (intros ->; exact Hnb).
+      pose proof (G_faulted _ _ _ _ HG Hc Hf) as HG1. destruct Hf as (_ & Hst & Hnf & Hcr & _).
+      rewrite Hst. split; [exact HG1 |]. split; [apply bc_frame_refl |]. repeat split; auto. lia.
+    - pose proof (Hre Hr) as F. destruct (bc_frame_fields _ _ F) as (F1 & F2 & F3 & F4 & _).
+      assert (HG1 : G s1).
+      { eapply G_reached; eauto. destruct HG as ((Ha & Hn0 & Hrs & Hp & Ho) & _).
+        destruct F as (_ & Fa & Fo & _). unfold base. rewrite Fa, F1, F2, F4, Fo. auto 10. }
+      destruct Hr as (Hc & Hc' & Hnf & _). split; [exact HG1 |]. split; [exact F |].
+      repeat split; auto; [lia | congruence].
+  Qed.
+
+  Definition br_post (b : brst) (e : bool) (st st' : store) : Prop :=
+    match br st' with
+    | None => br st = None
+    | Some b' => exists b0, br st = Some b0 /\ (b' = b0 \/ b_phase b' = (if e then BFailed else BSucceeded) \/ b_phase b' = b_phase b0)
+    end.
+
+  Lemma deferred_spec b e s :
+    G s ->
+    let s' := fst (exec (deferred sc b e) s) in
+    let e' := snd (snd (exec (deferred sc b e) s)) in
+    G s' /\ bc_frame (s_store s) (s_store s') /\ s_mark s' = s_mark s /\ s_mark_end s' = s_mark_end s
+    /\ s_nfail s <= s_nfail s' /\ (s_crashed s = true -> s_crashed s' = true)
+    /\ br_post b e (s_store s) (s_store s')
+    /\ (e = true -> br (s_store s) = Some b \/ br (s_store s) = None ->
+        reported (s_store s') (s_crashed s') e' = true).
+  Proof.
+    intros HG. unfold deferred.
+    set (ph' := if e then BFailed else BSucceeded).
+    set (bump := e && match sc_backoff sc with Some l => b_attempts b <? l | None => false end).
+    set (requeue := if bump then 2 ^ b_attempts b else 0).
+    rewrite exec_bind.
+    (* the status patch *)
+    assert (Hst : exists s1 e1,
+              exec (if brphase_eqb (b_phase b) ph' && negb bump then Ret false
+                    else Api (APatchBRStatus (if brphase_eqb (b_phase b) ph' then None else Some ph')
+                                             (if bump then Some (S (b_attempts b)) else None)) (fun _ => Ret e)) s = (s1, e1)
+              /\ G s1 /\ bc_frame (s_store s) (s_store s1) /\ s_mem s1 = s_mem s
+              /\ s_mark s1 = s_mark s /\ s_mark_end s1 = s_mark_end s /\ s_nfail s <= s_nfail s1
+              /\ (s_crashed s = true -> s_crashed s1 = true)
+              /\ br_post b e (s_store s) (s_store s1)
+              /\ (e = true -> br (s_store s) = Some b \/ br (s_store s) = None ->
+                  e1 = true \/ match br (s_store s1) with Some b' => b_phase b' = BFailed | None => True end)).
+    { destruct (brphase_eqb (b_phase b) ph' && negb bump) eqn:Esame.
+      - exists s, false. split; [reflexivity |]. split; [exact HG |]. split; [apply bc_frame_refl |].
+        repeat split; auto.
+        + unfold br_post. destruct (br (s_store s)); eauto.
+        + intros -> Hbr. right. apply andb_true_iff in Esame as (Hph & _). apply brphase_eqb_eq in Hph.
+          destruct Hbr as [-> | ->]; auto.
+      - cbn [Binder.exec].
+        match goal with |- context [Binder.step _ _ ?c s] => set (c0 := c) end.
+        destruct (Binder.step faults dp c0 s) as [s1 r1] eqn:E1. exists s1, e. split; [reflexivity |].
+        assert (Hreach : reached dp c0 s s1 r1 ->
+                  match br (s_store s) with
+                  | Some b0 => s_store s1 = set_br (s_store s)
+                                 (Some (mkBR (if brphase_eqb (b_phase b) ph' then b_phase b0 else ph')
+                                             (if bump then S (b_attempts b) else b_attempts b0)))
+                  | None => s_store s1 = s_store s
+                  end).
+        { intros (_ & _ & _ & Hd & _). cbn [is_watch] in Hd. apply do_patch_br in Hd.
+          destruct (br (s_store s)); destruct Hd as (Hd & _); rewrite Hd; [| reflexivity].
+          destruct (brphase_eqb (b_phase b) ph'); destruct bump; reflexivity. }
+        destruct (step_bc c0 _ _ _ HG I E1) as (HG1 & F1 & Hm1 & Hk1 & Hke1 & Hn1 & Hc1).
+        { intros Hr. specialize (Hreach Hr). destruct (br (s_store s)); rewrite Hreach;
+            [unfold bc_frame; simpl; auto 10 | apply bc_frame_refl]. }
+        split; [exact HG1 |]. split; [exact F1 |]. repeat split; auto.
+        + pose proof (step_spec _ _ _ _ _ _ E1) as (_ & _ & _ & [Hf | Hr]).
+          * destruct Hf as (_ & Hs & _). rewrite Hs. unfold br_post. destruct (br (s_store s)); eauto.
+          * specialize (Hreach Hr). unfold br_post. destruct (br (s_store s)) as [b0 |] eqn:Eb; rewrite Hreach.
+            { cbn [br set_br]. exists b0. split; [reflexivity |]. right. cbn [b_phase].
+              destruct (brphase_eqb (b_phase b) ph'); auto. }
+            { rewrite Eb. reflexivity. } }
+    destruct Hst as (s1 & e1 & -> & HG1 & F1 & Hm1 & Hk1 & Hke1 & Hn1 & Hc1 & Hbr1 & Hrep1).
+    (* the pod condition *)
+    cbn [Binder.exec].
+    set (c := negb e1 || negb (requeue =? 0)).
+    match goal with |- context [if ?x then _ else _] => destruct x eqn:Ech end.
+    2: { cbn [Binder.exec fst snd]. split; [exact HG1 |]. split; [exact F1 |]. repeat split; auto.
+         intros He Hbr. unfold reported. destruct (Hrep1 He Hbr) as [-> | Hp].
+         - rewrite orb_true_r. reflexivity.
+         - destruct (br (s_store s1)); [rewrite Hp; reflexivity | reflexivity]. }
+    apin E2 s2 r2. cbn [Binder.exec fst snd].
+    destruct (step_bc (APatchPodCond c) _ _ _ HG1 I E2) as (HG2 & F2 & Hm2 & Hk2 & Hke2 & Hn2 & Hc2).
+    { intros (_ & _ & _ & Hd & _). cbn [is_watch] in Hd.
+      assert (Ha : self_alive (s_store s1) = true) by apply HG1.
+      destruct (do_patch_cond _ _ _ _ _ Ha Hd) as (Hs & _). rewrite Hs. unfold bc_frame. simpl.
+      destruct (self (s_store s1)); auto 10. }
+    split; [exact HG2 |]. split; [eapply bc_frame_trans; eauto |].
+    split; [congruence |]. split; [congruence |]. split; [lia |]. split; [auto |].
+    assert (Hbr2 : br (s_store s2) = br (s_store s1)).
+    { pose proof (step_spec _ _ _ _ _ _ E2) as (_ & _ & _ & [Hf | Hr]).
+      - destruct Hf as (_ & Hs & _). rewrite Hs. reflexivity.
+      - destruct Hr as (_ & _ & _ & Hd & _). cbn [is_watch] in Hd.
+        assert (Ha : self_alive (s_store s1) = true) by apply HG1.
+        destruct (do_patch_cond _ _ _ _ _ Ha Hd) as (Hs & _). rewrite Hs. reflexivity. }
+    split; [unfold br_post in *; rewrite Hbr2; exact Hbr1 |].
+    intros He Hbr. unfold reported. rewrite Hbr2. destruct (Hrep1 He Hbr) as [-> | Hp].
+    - rewrite orb_true_r. reflexivity.
+    - destruct (br (s_store s1)); [rewrite Hp; reflexivity | reflexivity].
+  Qed.
+
+  (** ** Assembling the reconcile *)
+  Lemma side_ok_of_facts st :
+    wf_shape sc = true ->
+    p_recv (self st) = Some (recv_type sc) ->
+    (sc_fraction sc = true ->
+       exists idxs, Lab sc (sc_groups sc) (self st) /\ all_idx (sc_groups sc) st = Some idxs /\ cm_facts sc idxs st) ->
+    side_ok sc st = true.
+  Proof.
+    intros Hwf Hrecv Hfr. unfold side_ok. rewrite Hrecv. cbn [opt_rtype_eqb]. rewrite rtype_eqb_refl. cbn [andb].
+    destruct (sc_fraction sc) eqn:Efr; [| reflexivity].
+    destruct (Hfr eq_refl) as (idxs & HL & HA & (C1 & C2 & C3 & C4 & C5)).
+    rewrite HA. unfold vis_cm in C3. rewrite C3, C4, C5. cbn [opt_cval_eqb]. rewrite !cval_eqb_refl.
+    destruct (cm_cap st); [| contradiction]. destruct (cm_evar st); [| contradiction]. cbn [opt_is_some andb].
+    rewrite !andb_true_r. unfold labels_ok, Lab in *. unfold wf_shape in Hwf. rewrite Efr in Hwf.
+    destruct (sc_multi sc) eqn:Em.
+    - apply forallb_forall. intros g Hg. apply mem_nat_In, HL, Hg.
+    - destruct (sc_groups sc) as [| g [| g' l]]; simpl in Hwf; try discriminate.
+      apply opt_nat_eqb_eq, HL. reflexivity.
+  Qed.
+
+  Lemma clean_bc st st' : bc_frame st st' -> clean init st' = clean init st.
+  Proof.
+    intros F. destruct (bc_frame_fields _ _ F) as (_ & _ & _ & _ & F5 & F6 & _).
+    destruct F as (_ & _ & _ & F4 & F4' & _).
+    unfold clean, new_plain, new_multi, new_cms. simpl. rewrite F5, F6, F4, F4'. reflexivity.
+  Qed.
+
+  Lemma side_ok_bc st st' : bc_frame st st' -> side_ok sc st' = side_ok sc st.
+  Proof.
+    intros F. destruct (bc_frame_fields _ _ F) as (_ & _ & _ & _ & F5 & F6 & F7).
+    destruct F as (_ & _ & Fo & F4 & F4' & _).
+    unfold side_ok, labels_ok, cm_value. rewrite F5, F6, F7, (all_idx_others (sc_groups sc) st st' Fo).
+    destruct (if sc_vis_in_spec sc then CmCap else CmEvar); cbn [cm_get]; rewrite ?F4, ?F4'; reflexivity.
+  Qed.
+
+  Lemma clean_refl st : clean st st = true.
+  Proof.
+    unfold clean, new_plain, new_multi, new_cms. simpl.
+    assert (H1 : (match p_plain (self st) with Some g => negb (opt_nat_eqb (p_plain (self st)) (Some g)) | None => false end) = false).
+    { destruct (p_plain (self st)); [| reflexivity]. simpl. rewrite Nat.eqb_refl. reflexivity. }
+    rewrite H1. simpl.
+    assert (H2 : filter (fun g => negb (mem_nat g (p_multi (self st)))) (p_multi (self st)) = []).
+    { apply filter_none. intros g Hg. apply negb_false_iff, mem_nat_In, Hg. }
+    rewrite H2. destruct (opt_is_some (cm_cap st)); destruct (opt_is_some (cm_evar st)); reflexivity.
+  Qed.
+
+
+  Lemma INV_init : init_ok init -> INV sc init (br init) None None (init_state init).
+  Proof.
+    intros (Ha & Hn0 & Hrs & Hp & Hn & Ho & _). unfold INV. cbn [init_state s_store s_mem].
+    split.
+    - split; [unfold base; auto 10 |]. unfold hist_ok. simpl. rewrite Hn. auto.
+    - split; [split; reflexivity |]. split; [unfold J; auto 10 |]. split; [right; auto |]. auto 10.
+  Qed.
+
+  Definition fin_post (s' : state) (res : nat * bool) : Prop :=
+    G s' /\ node_ok (s_store s') = node_ok init /\ (SH init -> SH (s_store s'))
+    /\ (exists b1, br (s_store s') = Some b1 /\ (b_phase b1 = BSucceeded -> p_node (self (s_store s')) = 1))
+    /\ ((p_node (self (s_store s')) = 1 /\ side_ok sc (s_store s') = true)
+        \/ (p_node (self (s_store s')) = 0 /\ reported (s_store s') (s_crashed s') (snd res) = true
+            /\ (cleanup_unfaulted s' = true -> clean init (s_store s') = true))).
+
+  Lemma exit_unbound b mk mke s :
+    INV sc init (Some b) mk mke s -> b_phase b <> BSucceeded ->
+    (cleanup_unfaulted s = true -> clean init (s_store s) = true) ->
+    fin_post (fst (exec (deferred sc b true) s)) (snd (exec (deferred sc b true) s)).
+  Proof.
+    intros HI Hph Hcl.
+    destruct HI as (HG & _ & _ & _ & Hn & Hbr & Hno & Hsh).
+    destruct (deferred_spec b true s HG) as (D1 & D2 & D3 & D4 & D5 & D6 & D7 & D8).
+    destruct (exec (deferred sc b true) s) as [s' [rq e']]. cbn [fst snd] in *.
+    destruct (bc_frame_fields _ _ D2) as (_ & _ & F3 & _).
+    unfold fin_post. split; [exact D1 |].
+    split; [destruct D2 as (_&_&_&_&_&->); exact Hno |].
+    split; [intros Hi; specialize (Hsh Hi); destruct D2 as (_&_&Fo&_); unfold SH, rsv_only, names_ok in *; rewrite Fo; exact Hsh |].
+    split.
+    - unfold br_post in D7. rewrite Hbr in D7. destruct (br (s_store s')) as [b1 |]; [| discriminate].
+      exists b1. split; [reflexivity |]. intros Hs. exfalso. destruct D7 as (b0 & Hb0 & Hcase). injection Hb0 as <-.
+      destruct Hcase as [-> | [Hx | Hx]]; congruence.
+    - right. split; [congruence |]. split; [apply D8; auto |].
+      intros Hc. rewrite (clean_bc _ _ D2). apply Hcl.
+      unfold cleanup_unfaulted in *. rewrite D3, D4 in Hc. exact Hc.
+  Qed.
+
+  Lemma exit_bound b s :
+    wf_shape sc = true -> bound_facts sc init (Some b) None None s ->
+    fin_post (fst (exec (deferred sc b false) s)) (snd (exec (deferred sc b false) s)).
+  Proof.
+    intros Hwf (HG & _ & Hn & Hrecv & Hfacts & Hbr & Hno & Hsh).
+    destruct (deferred_spec b false s HG) as (D1 & D2 & D3 & D4 & D5 & D6 & D7 & _).
+    destruct (exec (deferred sc b false) s) as [s' [rq e']]. cbn [fst snd] in *.
+    destruct (bc_frame_fields _ _ D2) as (_ & _ & F3 & _).
+    unfold fin_post. split; [exact D1 |].
+    split; [destruct D2 as (_&_&_&_&_&->); exact Hno |].
+    split; [intros Hi; specialize (Hsh Hi); destruct D2 as (_&_&Fo&_); unfold SH, rsv_only, names_ok in *; rewrite Fo; exact Hsh |].
+    split.
+    - unfold br_post in D7. rewrite Hbr in D7. destruct (br (s_store s')) as [b1 |]; [| discriminate].
+      exists b1. split; [reflexivity |]. intros _. congruence.
+    - left. split; [congruence |]. rewrite (side_ok_bc _ _ D2). apply side_ok_of_facts; auto.
+  Qed.
+
+  Lemma get_step c s s1 r1 :
+    readonly c = true -> step c s = (s1, r1) ->
+    r1 = RFault \/ r1 = snd (do_call c None (s_store s)).
+  Proof.
+    intros Hro E. pose proof (step_spec _ _ _ _ _ _ E) as (_ & _ & _ & [Hf | Hr]).
+    - left. apply Hf.
+    - right. destruct Hr as (_ & _ & _ & Hd & _).
+      assert (Hw : is_watch c = false) by (destruct c; try discriminate; reflexivity).
+      rewrite Hw in Hd. rewrite Hd. reflexivity.
+  Qed.
+
+  Lemma cleanup_unfaulted_none s : s_mark s = None -> cleanup_unfaulted s = true.
+  Proof. intros H. unfold cleanup_unfaulted. rewrite H. reflexivity. Qed.
+
+  Theorem reconcile_master :
+    wf_shape sc = true -> init_ok init ->
+    fin_post (fst (exec (reconcile sc) (init_state init))) (snd (exec (reconcile sc) (init_state init))).
+  Proof.
+    intros Hwf Hok. pose proof (INV_init Hok) as HI0.
+    destruct Hok as (Ha & Hn0 & Hrs & Hp & Hn & Ho & (b & Hb & Hph)).
+    rewrite Hb in HI0.
+    set (s0 := init_state init) in *.
+    assert (Hst0 : s_store s0 = init) by reflexivity.
+    unfold reconcile. apin E1 s1 r1.
+    destruct (ro_step faults dp sc init (Some b) None None AGetBR _ _ _ HI0 eq_refl E1) as (HI1 & Hst1 & Hm1 & _ & _).
+    rewrite Hst0 in Hst1.
+    assert (Hexit : forall s (res : nat * bool), INV sc init (Some b) None None s -> s_store s = init -> snd res = true ->
+              fin_post s res).
+    { intros s res HI Hst Hres. pose proof HI as (HG & (Hmk & _) & _ & _ & Hnn & Hbr & Hno & Hsh).
+      unfold fin_post. split; [exact HG |]. split; [exact Hno |]. split; [exact Hsh |].
+      split; [exists b; split; [exact Hbr | intros; contradiction] |].
+      right. split; [exact Hnn |]. split; [unfold reported; rewrite Hres, orb_true_r; reflexivity |].
+      intros _. rewrite Hst. apply clean_refl. }
+    assert (Hdefer : forall s, INV sc init (Some b) None None s -> s_store s = init ->
+              fin_post (fst (exec (deferred sc b true) s)) (snd (exec (deferred sc b true) s))).
+    { intros s HI Hst. apply (exit_unbound b None None s HI Hph). intros _. rewrite Hst. apply clean_refl. }
+    destruct (get_step AGetBR _ _ _ eq_refl E1) as [-> | Hr1].
+    { cbn [Binder.exec fst snd]. apply Hexit; auto. }
+    rewrite Hst0 in Hr1. cbn [do_call snd] in Hr1. rewrite Hb in Hr1. subst r1.
+    destruct (b_phase b) eqn:Eph; [| contradiction |].
+    all: cbn [Binder.exec].
+    all: match goal with |- context [Binder.step _ _ AGetPod ?st] => set (s2 := st) end.
+    all: assert (HI2 : INV sc init (Some b) None None s2)
+      by (apply (INV_set_mem sc init (Some b) None None s1 mem_shell HI1); rewrite Hst1; unfold J; auto 10).
+    all: assert (Hst2 : s_store s2 = init) by exact Hst1.
+    all: destruct (Binder.step faults dp AGetPod s2) as [s3 r3] eqn:E3.
+    all: destruct (ro_step faults dp sc init (Some b) None None AGetPod _ _ _ HI2 eq_refl E3) as (HI3 & Hst3 & Hm3 & _ & _).
+    all: rewrite Hst2 in Hst3.
+    all: destruct (get_step AGetPod _ _ _ eq_refl E3) as [-> | Hr3]; [apply Hdefer; auto |].
+    all: rewrite Hst2 in Hr3; cbn [do_call snd] in Hr3; rewrite Ha in Hr3; subst r3.
+    all: cbn [Binder.exec]; rewrite Hn; cbn [Nat.eqb negb]; cbn [Binder.exec].
+    all: match goal with |- context [Binder.step _ _ AGetNode ?st] => set (s4 := st) end.
+    all: assert (HI4 : INV sc init (Some b) None None s4)
+      by (apply (INV_set_mem sc init (Some b) None None s3 (mem_of (self init)) HI3); rewrite Hst3; unfold J;
+          split; [auto | split; [intros g Hg; auto | auto]]).
+    all: assert (Hst4 : s_store s4 = init) by exact Hst3.
+    all: assert (HM4 : M s4) by (unfold M; rewrite Hst4; split; reflexivity).
+    all: destruct (Binder.step faults dp AGetNode s4) as [s5 r5] eqn:E5.
+    all: destruct (ro_step faults dp sc init (Some b) None None AGetNode _ _ _ HI4 eq_refl E5) as (HI5 & Hst5 & Hm5 & _ & _).
+    all: assert (HM5 : M s5) by (unfold M; rewrite Hst5, Hm5; exact HM4).
+    all: rewrite Hst4 in Hst5.
+    all: destruct r5; try (apply Hdefer; auto).
+    (* the node was read: Bind *)
+    all: rewrite exec_bind.
+    all: pose proof (bind_prog_spec faults dp ord sc init (Some b) None None s5 HI5 HM5) as (B1 & B2 & _).
+    all: destruct (exec (bind_prog sc) s5) as [s6 e]; cbn [fst snd] in *.
+    all: destruct e.
+    all: try (destruct B2 as (_ & Hfr & Hg); exfalso; unfold wf_shape in Hwf; rewrite Hfr, Hg in Hwf; discriminate).
+    all: cbn [Binder.exec bind]; try (apply exit_bound; auto).
+    (* Bind failed: Rollback, then report *)
+    all: rewrite exec_bind.
+    all: destruct (rollback_spec (Some b) s6 B2) as (R1 & R2 & R3).
+    all: destruct (exec (rollback sc) s6) as [s7 u]; cbn [fst snd] in *.
+    all: apply (exit_unbound b _ _ s7 R1 ltac:(rewrite Eph; discriminate)).
+    all: intros Hc; apply R3; unfold cleanup_unfaulted in Hc.
+    all: destruct R1 as (_ & (Hk7 & Hke7) & _); rewrite Hk7, Hke7 in Hc; apply Nat.eqb_eq in Hc; auto.
+  Qed.
+
+  (** ** A run without injected faults *)
+  Definition no_faults : Prop := forall k, faults k = Ok.
+
+  Lemma step_nofault c s s1 r1 :
+    no_faults -> s_crashed s = false -> step c s = (s1, r1) ->
+    s_crashed s1 = false /\ s_nfail s1 = s_nfail s /\ reached dp c s s1 r1.
+  Proof.
+    intros Hnf Hc E. pose proof (step_spec _ _ _ _ _ _ E) as (_ & _ & _ & [Hf | Hr]).
+    - exfalso. unfold Binder.step in E. rewrite Hc, Hnf in E.
+      destruct (do_call c (if is_watch c then dp (s_watches s) else None) (s_store s)) as [st' r'].
+      injection E as <- <-. destruct Hf as (_ & _ & Hx & _). simpl in Hx. lia.
+    - split; [apply Hr |]. split; [apply Hr | exact Hr].
+  Qed.
+
+  Lemma exec_nofault {A} (p : prog A) : forall s,
+    no_faults -> s_crashed s = false ->
+    s_crashed (fst (exec p s)) = false /\ s_nfail (fst (exec p s)) = s_nfail s.
+  Proof.
+    induction p as [a | c k IH | k IH | m k IH | gs k IH | b k IH]; intros s Hnf Hc; cbn [Binder.exec].
+    - auto.
+    - destruct (Binder.step faults dp c s) as [s1 r1] eqn:E.
+      destruct (step_nofault _ _ _ _ Hnf Hc E) as (Hc1 & Hn1 & _).
+      destruct (IH r1 s1 Hnf Hc1) as (A1 & A2). split; [exact A1 | lia].
+    - apply IH; auto.
+    - match goal with |- context [Binder.exec _ _ _ k ?st] => exact (IH st Hnf Hc) end.
+    - match goal with |- context [Binder.exec _ _ _ (k ?o) ?st] => exact (IH o st Hnf Hc) end.
+    - match goal with |- context [Binder.exec _ _ _ k ?st] => exact (IH st Hnf Hc) end.
+  Qed.
+
+  (** ** The deferred update without [G]: it touches only the request status and the condition *)
+  Lemma step_bc0 c s s1 r1 :
+    self_alive (s_store s) = true -> not_bind c -> step c s = (s1, r1) ->
+    (reached dp c s s1 r1 -> bc_frame (s_store s) (s_store s1)) ->
+    bc_frame (s_store s) (s_store s1) /\ s_mem s1 = s_mem s /\ binds (s_log s1) = binds (s_log s).
+  Proof.
+    intros Ha Hnb E Hre. pose proof (step_spec _ _ _ _ _ _ E) as (Hm & _ & _ & [Hf | Hr]).
+    - destruct Hf as (_ & Hst & _ & _ & (o & Ho & Hlog) & _). rewrite Hst, Hlog, binds_cons.
+      split; [apply bc_frame_refl |]. split; [exact Hm |].
+      destruct (obs_not_bind c o Hnb) as (-> & _). reflexivity.
+    - split; [apply Hre, Hr |]. split; [exact Hm |]. destruct Hr as (_ & _ & _ & _ & Hlog & _).
+      rewrite Hlog, binds_cons. destruct (obs_not_bind c (resp_outcome r1) Hnb) as (-> & _). reflexivity.
+  Qed.
+
+  Lemma deferred_frame b e s :
+    self_alive (s_store s) = true ->
+    let s' := fst (exec (deferred sc b e) s) in
+    bc_frame (s_store s) (s_store s') /\ binds (s_log s') = binds (s_log s).
+  Proof.
+    intros Ha. unfold deferred. rewrite exec_bind.
+    match goal with |- context [exec (if ?c then Ret false else Api ?a ?k) s] =>
+      assert (Hst : exists s1 e1, exec (if c then Ret false else Api a k) s = (s1, e1)
+                /\ bc_frame (s_store s) (s_store s1) /\ s_mem s1 = s_mem s /\ binds (s_log s1) = binds (s_log s));
+      [ destruct c;
+        [ exists s, false; split; [reflexivity |]; split; [apply bc_frame_refl | auto]
+        | cbn [Binder.exec]; destruct (Binder.step faults dp a s) as [s1 r1] eqn:E1; eexists s1, _;
+          split; [reflexivity |];
+          apply (step_bc0 a _ _ _ Ha I E1); intros (_ & _ & _ & Hd & _); cbn [is_watch] in Hd;
+          apply do_patch_br in Hd; destruct (br (s_store s)); destruct Hd as (Hd & _); rewrite Hd;
+          [unfold bc_frame; simpl; auto 10 | apply bc_frame_refl] ]
+      | ]
+    end.
+    destruct Hst as (s1 & e1 & -> & F1 & Hm1 & Hb1).
+    assert (Ha1 : self_alive (s_store s1) = true) by (destruct F1 as (_ & -> & _); exact Ha).
+    cbn [Binder.exec].
+    match goal with |- context [if ?x then _ else _] => destruct x end.
+    2: { cbn [Binder.exec fst]. auto. }
+    cbn [Binder.exec].
+    match goal with |- context [Binder.step _ _ ?c s1] => destruct (Binder.step faults dp c s1) as [s2 r2] eqn:E2;
+      destruct (step_bc0 c _ _ _ Ha1 I E2) as (F2 & _ & Hb2) end.
+    { intros (_ & _ & _ & Hd & _). cbn [is_watch] in Hd.
+      destruct (do_patch_cond _ _ _ _ _ Ha1 Hd) as (Hs & _). rewrite Hs. unfold bc_frame. simpl.
+      destruct (self (s_store s1)); auto 10. }
+    cbn [Binder.exec fst]. split; [eapply bc_frame_trans; eauto | congruence].
+  Qed.
+
+  Lemma exit_bound_strong b s :
+    wf_shape sc = true -> bound_facts sc init (Some b) None None s ->
+    let s' := fst (exec (deferred sc b false) s) in
+    p_node (self (s_store s')) = 1 /\ side_ok sc (s_store s') = true /\ self_alive (s_store s') = true.
+  Proof.
+    intros Hwf (HG & _ & Hn & Hrecv & Hfacts & Hbr & Hno & Hsh).
+    destruct (deferred_spec b false s HG) as (D1 & D2 & _).
+    destruct (exec (deferred sc b false) s) as [s' [rq e']]. cbn [fst snd] in *.
+    destruct (bc_frame_fields _ _ D2) as (_ & _ & F3 & _).
+    split; [congruence |]. split; [| apply D1]. rewrite (side_ok_bc _ _ D2). apply side_ok_of_facts; auto.
+  Qed.
+
+  (** a fault-free attempt from an unbound, attemptable state binds the pod *)
+  Theorem recover_unbound :
+    wf_shape sc = true -> attemptable_sc sc -> init_ok init -> node_ok init = true -> Live init ->
+    no_faults -> dp_ok dp ->
+    let s' := fst (exec (reconcile sc) (init_state init)) in
+    p_node (self (s_store s')) = 1 /\ side_ok sc (s_store s') = true /\ self_alive (s_store s') = true.
+  Proof.
+    intros Hwf Hatt Hok Hnode Hlive Hnf Hdp. pose proof (INV_init Hok) as HI0.
+    destruct Hok as (Ha & Hn0 & Hrs & Hp & Hn & Ho & (b & Hb & Hph)).
+    rewrite Hb in HI0.
+    set (s0 := init_state init) in *.
+    assert (Hst0 : s_store s0 = init) by reflexivity.
+    assert (Hc0 : s_crashed s0 = false) by reflexivity.
+    unfold reconcile. apin E1 s1 r1.
+    destruct (ro_step faults dp sc init (Some b) None None AGetBR _ _ _ HI0 eq_refl E1) as (HI1 & Hst1 & Hm1 & _ & Hl1).
+    destruct (step_nofault _ _ _ _ Hnf Hc0 E1) as (Hc1 & Hn1 & _).
+    destruct (Hl1 Hn1) as (Hr1 & _). rewrite Hst0 in Hr1, Hst1. cbn [do_call snd] in Hr1. rewrite Hb in Hr1. subst r1.
+    destruct (b_phase b) eqn:Eph; [| contradiction |].
+    all: cbn [Binder.exec].
+    all: match goal with |- context [Binder.step _ _ AGetPod ?st] => set (s2 := st) end.
+    all: assert (HI2 : INV sc init (Some b) None None s2)
+      by (apply (INV_set_mem sc init (Some b) None None s1 mem_shell HI1); rewrite Hst1; unfold J; auto 10).
+    all: assert (Hst2 : s_store s2 = init) by exact Hst1.
+    all: assert (Hc2 : s_crashed s2 = false) by exact Hc1.
+    all: destruct (Binder.step faults dp AGetPod s2) as [s3 r3] eqn:E3.
+    all: destruct (ro_step faults dp sc init (Some b) None None AGetPod _ _ _ HI2 eq_refl E3) as (HI3 & Hst3 & Hm3 & _ & Hl3).
+    all: destruct (step_nofault _ _ _ _ Hnf Hc2 E3) as (Hc3 & Hn3 & _).
+    all: destruct (Hl3 Hn3) as (Hr3 & _); rewrite Hst2 in Hr3, Hst3; cbn [do_call snd] in Hr3; rewrite Ha in Hr3; subst r3.
+    all: cbn [Binder.exec]; rewrite Hn; cbn [Nat.eqb negb]; cbn [Binder.exec].
+    all: match goal with |- context [Binder.step _ _ AGetNode ?st] => set (s4 := st) end.
+    all: assert (HI4 : INV sc init (Some b) None None s4)
+      by (apply (INV_set_mem sc init (Some b) None None s3 (mem_of (self init)) HI3); rewrite Hst3; unfold J;
+          split; [auto | split; [intros g Hg; auto | auto]]).
+    all: assert (Hst4 : s_store s4 = init) by exact Hst3.
+    all: assert (Hc4 : s_crashed s4 = false) by exact Hc3.
+    all: assert (HM4 : M s4) by (unfold M; rewrite Hst4; split; reflexivity).
+    all: destruct (Binder.step faults dp AGetNode s4) as [s5 r5] eqn:E5.
+    all: destruct (ro_step faults dp sc init (Some b) None None AGetNode _ _ _ HI4 eq_refl E5) as (HI5 & Hst5 & Hm5 & _ & Hl5).
+    all: destruct (step_nofault _ _ _ _ Hnf Hc4 E5) as (Hc5 & Hn5 & _).
+    all: assert (HM5 : M s5) by (unfold M; rewrite Hst5, Hm5; exact HM4).
+    all: destruct (Hl5 Hn5) as (Hr5 & _); rewrite Hst4 in Hr5, Hst5; cbn [do_call snd] in Hr5; rewrite Hnode in Hr5; subst r5.
+    all: rewrite exec_bind.
+    all: pose proof (bind_prog_spec faults dp ord sc init (Some b) None None s5 HI5 HM5) as (B1 & B2 & B3).
+    all: destruct (exec_nofault (bind_prog sc) s5 Hnf Hc5) as (Hc6 & Hn6).
+    all: destruct (exec (bind_prog sc) s5) as [s6 e]; cbn [fst snd] in *.
+    all: rewrite Hst5 in B3; specialize (B3 Hn6 Hdp Hlive Hatt); subst e.
+    all: cbn [Binder.exec bind]; apply exit_bound_strong; auto.
+  Qed.
+
+  (** a request whose pod is already bound: only the request status and the PodBound condition may change *)
+  Theorem already_bound :
+    self_alive init = true -> p_node (self init) <> 0 ->
+    let s' := fst (exec (reconcile sc) (init_state init)) in
+    bc_frame init (s_store s') /\ binds (s_log s') = 0.
+  Proof.
+    intros Ha Hn. set (s0 := init_state init).
+    assert (Hst0 : s_store s0 = init) by reflexivity.
+    assert (Hro : forall c s s1 r1, readonly c = true -> self_alive (s_store s) = true -> step c s = (s1, r1) ->
+              s_store s1 = s_store s /\ binds (s_log s1) = binds (s_log s)).
+    { intros c s s1 r1 Hc Hal E.
+      assert (Hnb : not_bind c) by (destruct c; try discriminate; exact I).
+      assert (Hst : s_store s1 = s_store s).
+      { pose proof (step_spec _ _ _ _ _ _ E) as (_ & _ & _ & [Hf | Hr]).
+        - apply Hf.
+        - destruct Hr as (_ & _ & _ & Hd & _).
+          pose proof (do_call_readonly c (if is_watch c then dp (s_watches s) else None) (s_store s) Hc) as Hx.
+          rewrite Hd in Hx. exact Hx. }
+      split; [exact Hst |].
+      destruct (step_bc0 c _ _ _ Hal Hnb E) as (_ & _ & Hb); [intros _; rewrite Hst; apply bc_frame_refl | exact Hb]. }
+    unfold reconcile. apin E1 s1 r1.
+    assert (Ha0 : self_alive (s_store s0) = true) by (rewrite Hst0; exact Ha).
+    destruct (Hro AGetBR s0 s1 r1 eq_refl Ha0 E1) as (Hst1 & Hb1).
+    rewrite Hst0 in Hst1.
+    assert (Hdone : forall res : nat * bool, bc_frame init (s_store (fst (exec (Ret res) s1)))
+                                            /\ binds (s_log (fst (exec (Ret res) s1))) = 0).
+    { intros res. cbn [Binder.exec fst]. rewrite Hst1, Hb1. split; [apply bc_frame_refl | reflexivity]. }
+    destruct r1; try apply Hdone.
+    destruct (b_phase b); try apply Hdone.
+    all: cbn [Binder.exec].
+    all: match goal with |- context [Binder.step _ _ AGetPod ?st] => set (s2 := st) end.
+    all: assert (Hst2 : s_store s2 = init) by exact Hst1.
+    all: assert (Hb2 : binds (s_log s2) = 0) by exact Hb1.
+    all: destruct (Binder.step faults dp AGetPod s2) as [s3 r3] eqn:E3.
+    all: assert (Ha2 : self_alive (s_store s2) = true) by (rewrite Hst2; exact Ha).
+    all: destruct (Hro AGetPod s2 s3 r3 eq_refl Ha2 E3) as (Hst3 & Hb3).
+    all: rewrite Hst2 in Hst3.
+    all: assert (Ha3 : self_alive (s_store s3) = true) by (rewrite Hst3; exact Ha).
+    all: assert (Hdef : forall e, bc_frame init (s_store (fst (exec (deferred sc b e) s3)))
+                                 /\ binds (s_log (fst (exec (deferred sc b e) s3))) = 0)
+      by (intros e; destruct (deferred_frame b e s3 Ha3) as (D1 & D2);
+          rewrite Hst3 in D1; split; [exact D1 | congruence]).
+    all: destruct r3; try apply Hdef.
+    all: assert (Hp : p = self init)
+      by (destruct (get_step AGetPod _ _ _ eq_refl E3) as [Hx | Hx]; [discriminate |];
+          rewrite Hst2 in Hx; cbn [do_call snd] in Hx; rewrite Ha in Hx; congruence).
+    all: subst p; cbn [Binder.exec].
+    all: apply Nat.eqb_neq in Hn; rewrite Hn; cbn [negb].
+    all: match goal with |- context [Binder.exec _ _ _ (deferred sc ?bb false) ?st] =>
+           set (sx := st);
+           assert (Hsx : s_store sx = init) by exact Hst3;
+           assert (Hax : self_alive (s_store sx) = true) by (rewrite Hsx; exact Ha);
+           assert (Hbx : binds (s_log sx) = 0) by (cbn [sx s_log]; congruence);
+           destruct (deferred_frame bb false sx Hax) as (D1 & D2);
+           rewrite Hsx in D1; split; [exact D1 | congruence] end.
+  Qed.
+End Final.
+
+(** * The four statements of C11, closed *)
+
+Lemma filter_map_comm {A} (f : A -> bool) (h : A -> A) l :
+  (forall x, f (h x) = f x) -> filter f (map h l) = map h (filter f l).
+Proof.
+  intros H. induction l as [| x l IH]; [reflexivity |]. simpl. rewrite H. destruct (f x); simpl; rewrite IH; reflexivity.
+Qed.
+
+Definition annot (f : nat -> nat) (p : pod) : pod :=
+  if p_rsv p && negb (opt_is_some (p_idx p)) then with_idx p (Some (f (p_name p))) else p.
+
+Lemma annot_fields f p :
+  p_name (annot f p) = p_name p /\ p_rsv (annot f p) = p_rsv p /\ p_plain (annot f p) = p_plain p.
+Proof. unfold annot. destruct (p_rsv p && negb (opt_is_some (p_idx p))); simpl; auto. Qed.
+
+Lemma env_annotate_others f st : others (env_annotate f st) = map (annot f) (others st).
+Proof. reflexivity. Qed.
+
+Lemma rsv_idx_annotate f g st i : rsv_idx g st = Some i -> rsv_idx g (env_annotate f st) = Some i.
+Proof.
+  unfold rsv_idx. rewrite env_annotate_others.
+  rewrite (filter_map_comm (fun p => p_rsv p && opt_nat_eqb (p_plain p) (Some g)) (annot f)).
+  - destruct (filter _ (others st)) as [| p l]; [discriminate |]. simpl. intros Hp.
+    unfold annot. rewrite Hp. simpl. rewrite andb_false_r. exact Hp.
+  - intros x. destruct (annot_fields f x) as (_ & -> & ->). reflexivity.
+Qed.
+
+Lemma side_ok_annotate sc f st : side_ok sc st = true -> side_ok sc (env_annotate f st) = true.
+Proof.
+  unfold side_ok. intros H. apply andb_true_iff in H as (H1 & H2). apply andb_true_iff. split; [exact H1 |].
+  destruct (sc_fraction sc); [| reflexivity].
+  apply andb_true_iff in H2 as (H2 & H3). apply andb_true_iff. split; [exact H2 |].
+  destruct (all_idx (sc_groups sc) st) as [idxs |] eqn:Ea; [| discriminate].
+  rewrite (all_idx_ext (sc_groups sc) st (env_annotate f st) (fun g j _ Hj => rsv_idx_annotate f g st j Hj) idxs Ea).
+  exact H3.
+Qed.
+
+Lemma SH_annotate f st : SH st -> Live (env_annotate f st).
+Proof.
+  intros (H1 & H2). unfold Live, SH, rsv_only, names_ok, annotated in *. rewrite !env_annotate_others.
+  rewrite Forall_forall in H1, H2. split; [split |]; apply Forall_forall.
+  - intros p Hp. apply in_map_iff in Hp as (q & <- & Hq). destruct (annot_fields f q) as (_ & -> & _). auto.
+  - intros p Hp. apply in_map_iff in Hp as (q & <- & Hq). destruct (annot_fields f q) as (-> & _ & ->). auto.
+  - intros p Hp. apply in_map_iff in Hp as (q & <- & Hq). unfold annot.
+    rewrite (H1 q Hq). destruct (opt_is_some (p_idx q)) eqn:E; simpl; auto.
+Qed.
+
+Theorem all_or_nothing sc faults dp ord init :
+  wf_shape sc = true -> init_ok init ->
+  let s := fst (run sc faults dp ord init) in
+  let res := snd (run sc faults dp ord init) in
+  (bound (s_store s) = true /\ side_ok sc (s_store s) = true)
+  \/ (unbound (s_store s) = true /\ reported (s_store s) (s_crashed s) (snd res) = true
+      /\ (cleanup_unfaulted s = true -> clean init (s_store s) = true)).
+Proof.
+  intros Hwf Hok. destruct (reconcile_master faults dp ord sc init Hwf Hok) as (HG & _ & _ & _ & Hcase).
+  unfold run. cbn zeta. destruct HG as ((Ha & _) & _).
+  destruct Hcase as [(Hn & Hs) | (Hn & Hr & Hc)].
+  - left. unfold bound. rewrite Ha, Hn. auto.
+  - right. unfold unbound. rewrite Ha, Hn. auto.
+Qed.
+
+Theorem never_elsewhere sc faults dp ord init :
+  wf_shape sc = true -> init_ok init ->
+  let s := fst (run sc faults dp ord init) in
+  Forall (fun n => n = 0 \/ n = 1) (s_hist s) /\ binds (s_log s) <= 1
+  /\ existsb is_bind_elsewhere (s_log s) = false.
+Proof.
+  intros Hwf Hok. destruct (reconcile_master faults dp ord sc init Hwf Hok) as (HG & _).
+  unfold run. cbn zeta. destruct HG as (_ & H1 & H2 & H3 & H4). split; [exact H1 |]. split; [| exact H3].
+  rewrite H2. destruct H4 as [-> | ->]; lia.
+Qed.
+
+Theorem noop_succeeded sc faults dp ord init b :
+  br init = Some b -> b_phase b = BSucceeded ->
+  let s := fst (run sc faults dp ord init) in
+  s_store s = init /\ length (s_log s) = 1 /\ binds (s_log s) = 0.
+Proof.
+  intros Hb Hph. unfold run, reconcile. cbn [exec].
+  destruct (step faults dp AGetBR (init_state init)) as [s1 r1] eqn:E.
+  pose proof (step_spec _ _ _ _ _ _ E) as (_ & _ & _ & [Hf | Hr]).
+  - destruct Hf as (-> & Hst & _ & _ & (o & Ho & Hlog) & _). cbn [exec fst]. rewrite Hst, Hlog.
+    split; [reflexivity |]. split; [reflexivity |]. rewrite binds_cons. destruct Ho; subst; reflexivity.
+  - destruct Hr as (_ & _ & _ & Hd & Hlog & _). cbn [is_watch do_call init_state s_store] in Hd. rewrite Hb in Hd.
+    injection Hd as Hst <-. rewrite Hph. cbn [exec fst]. rewrite <- Hst, Hlog. auto.
+Qed.
+
+Theorem noop_bound sc faults dp ord init :
+  self_alive init = true -> p_node (self init) <> 0 ->
+  let s := fst (run sc faults dp ord init) in
+  bc_frame init (s_store s) /\ binds (s_log s) = 0.
+Proof. intros Ha Hn. apply (already_bound faults dp ord sc init Ha Hn). Qed.
+
+Theorem recovery sc faults dp ord dp2 ord2 f init :
+  wf_shape sc = true -> attemptable_sc sc -> init_ok init -> node_ok init = true -> SH init ->
+  (forall k, dp2 k <> None) ->
+  let st1 := s_store (fst (run sc faults dp ord init)) in
+  let st2 := s_store (fst (run sc (fun _ => Ok) dp2 ord2 (env_annotate f st1))) in
+  bound st2 = true /\ side_ok sc st2 = true.
+Proof.
+  intros Hwf Hatt Hok Hnode Hsh Hdp.
+  destruct (reconcile_master faults dp ord sc init Hwf Hok) as (HG & Hno & Hsh1 & (b1 & Hb1 & Hsucc) & Hcase).
+  unfold run. cbn zeta.
+  set (st1 := s_store (fst (exec faults dp ord (reconcile sc) (init_state init)))) in *.
+  destruct HG as ((Ha & Hn0 & Hrs & Hp & Ho) & _).
+  set (init2 := env_annotate f st1).
+  destruct Hcase as [(Hn & Hs) | (Hn & _)].
+  - (* already bound: the second reconcile only touches the status *)
+    assert (Ha2 : self_alive init2 = true) by exact Ha.
+    assert (Hn2 : p_node (self init2) <> 0) by (change (p_node (self st1) <> 0); rewrite Hn; discriminate).
+    destruct (already_bound (fun _ => Ok) dp2 ord2 sc init2 Ha2 Hn2) as (F & _).
+    destruct (bc_frame_fields _ _ F) as (_ & _ & F3 & _). pose proof F as (_ & Fa & _).
+    assert (Hn2' : p_node (self init2) = 1) by exact Hn.
+    split; [unfold bound; rewrite Fa, Ha2, F3, Hn2'; reflexivity |].
+    rewrite (side_ok_bc sc _ _ F). apply side_ok_annotate, Hs.
+  - (* unbound: the fault-free attempt goes through *)
+    assert (Hok2 : init_ok init2).
+    { unfold init_ok, init2. simpl. repeat split; auto.
+      - rewrite Forall_forall in *. intros p Hp'. apply in_map_iff in Hp' as (q & <- & Hq).
+        fold (annot f q). destruct (annot_fields f q) as (-> & _). auto.
+      - exists b1. split; [exact Hb1 |]. intros Hx. specialize (Hsucc Hx). lia. }
+    assert (Hlive2 : Live init2) by (apply SH_annotate, Hsh1, Hsh).
+    assert (Hnode2 : node_ok init2 = true) by (unfold init2; simpl; congruence).
+    destruct (recover_unbound (fun _ => Ok) dp2 ord2 sc init2 Hwf Hatt Hok2 Hnode2 Hlive2 (fun _ => eq_refl) Hdp)
+      as (R1 & R2 & R3).
+    unfold bound. rewrite R3, R1. auto.
+Qed.
+
+(** * Non-vacuity: a concrete multi-fraction request *)
+Definition ex_sc : scen := mkScen true [1; 2; 3] None true true false true true.
+Definition ex_init : store :=
+  mkStore (mkPod 0 false 0 PhPending None [] None None None) true [] None None (Some (mkBR BPending 0)) true.
+Definition ex_dp (k : nat) : option nat := Some k.
+Definition ex_ord (_ : nat) : list gid := [].
+Definition ex_fail13 (k : nat) : fault := if k =? 13 then Fail else Ok.   (* the label patch of the second group *)
+
+Lemma ex_nonvacuous :
+  wf_shape ex_sc = true /\ attemptable_sc ex_sc /\ init_ok ex_init /\ node_ok ex_init = true /\ SH ex_init
+  /\ (let s := fst (run ex_sc (fun _ => Ok) ex_dp ex_ord ex_init) in
+      bound (s_store s) = true /\ side_ok ex_sc (s_store s) = true /\ length (s_log s) = 31)
+  /\ (let s := fst (run ex_sc ex_fail13 ex_dp ex_ord ex_init) in
+      unbound (s_store s) = true /\ reported (s_store s) (s_crashed s) true = true
+      /\ cleanup_unfaulted s = true /\ clean ex_init (s_store s) = true
+      /\ s_mark s = Some (17, 1)).
+Proof.
+  split; [reflexivity |]. split; [split; [reflexivity | intros _; split; [reflexivity | discriminate]] |].
+  split.
+  { unfold init_ok, ex_init. simpl. repeat split; auto. exists (mkBR BPending 0). split; [reflexivity | discriminate]. }
+  split; [reflexivity |].
+  split; [split; constructor |].
+  split; vm_compute; auto 10.
+Qed.
+
+(** * Literal readings of two clauses that the code (as it is) does not satisfy *)
+
+(** "unbound => the request is Failed or the binder crashed": false as soon as
+    the status patch is itself the failed call (here: the device plugin stays
+    silent, so Bind fails without any injected fault, and the status patch -
+    call 12 - fails).  The reconcile returns the error, so the request is requeued. *)
+Definition ex_sc1 : scen := mkScen true [1] None false true false true true.
+Definition ex_silent (_ : nat) : option nat := None.
+Definition ex_fail12 (k : nat) : fault := if k =? 12 then Fail else Ok.
+
+Lemma ex_reported_literal_refuted :
+  let s := fst (run ex_sc1 ex_fail12 ex_silent ex_ord ex_init) in
+  let res := snd (run ex_sc1 ex_fail12 ex_silent ex_ord ex_init) in
+  wf_shape ex_sc1 = true /\ unbound (s_store s) = true /\ s_crashed s = false
+  /\ br (s_store s) = Some (mkBR BPending 0) /\ snd res = true.
+Proof. vm_compute. auto. Qed.
+
+(** "a request whose pod is already bound changes nothing": the code marks such
+    a request Succeeded and writes PodBound=True. *)
+Definition ex_bound_init : store :=
+  mkStore (mkPod 0 false 1 PhPending None [] None None None) true [] None None (Some (mkBR BPending 0)) true.
+
+Lemma ex_noop_bound_literal_refuted :
+  let s := fst (run ex_sc (fun _ => Ok) ex_dp ex_ord ex_bound_init) in
+  br (s_store s) = Some (mkBR BSucceeded 0) /\ p_cond (self (s_store s)) = Some true
+  /\ s_store s <> ex_bound_init.
+Proof. vm_compute. split; [reflexivity |]. split; [reflexivity |]. discriminate. Qed.
